@@ -59,3 +59,20 @@ def observe_series(vec: Dict[str, Any]) -> Dict[str, Any]:
         obs[mode] = run_validate(schema, ser, proj.field, **kw)
         obs[mode]["input_unchanged"] = proj.snapshot(ser) == snap0
     return obs
+
+
+def observe_frame(vec: Dict[str, Any]) -> Dict[str, Any]:
+    schema = conc.frame_schema(vec["schema"])
+    df = conc.pd_frame(vec["data"])
+    snap0 = proj.snapshot(df)
+    obs: Dict[str, Any] = {}
+    opts = vec.get("opts", {})
+    modes = ("lazy",) if vec["schema"].get("drop") else ("eager", "lazy")
+    for mode in modes:
+        kw = dict(lazy=(mode == "lazy"))
+        for k in ("head", "tail", "sample", "random_state", "inplace"):
+            if opts.get(k) is not None:
+                kw[k] = opts[k]
+        obs[mode] = run_validate(schema, df, proj.frame, **kw)
+        obs[mode]["input_unchanged"] = proj.snapshot(df) == snap0
+    return obs
